@@ -264,8 +264,7 @@ PROPS = {
                 "logins (id, name, icon, flags as integers), id-addressed requests reach exactly the holder, refuse-messages and auto-reply "
                 "honoured; non-trivial = a change or departure after another client fetched its list; distinct = hash(history)",
         "assumptions": ["each step settles before the next (the statement quantifies over histories; delivery order of two notifications to one client is not constrained)",
-                        "users logged in but not yet agreed are unconstrained in other clients' rosters",
-                        "known finding away-clear-reorder: an away user's first request is a non-notifying one in TestC13 (excluded, counted); the excluded class is decided by TestC13AwayReorder"],
+                        "users logged in but not yet agreed are unconstrained in other clients' rosters"],
         "quick": {"runs": [{"test": "^TestC13$", "shards": 12, "checks": 60, "timeout": 900},
                            {"test": "^TestC13Wrap$", "shards": 3, "checks": 25, "timeout": 900},
                            {"test": "^TestC13AwayReorder$", "shards": 1, "checks": 40, "timeout": 900},
